@@ -1,10 +1,11 @@
-from common import WORLD_TB, WORLD_ASSUME, SCEN_RULE
+from common import WORLD_TB, WORLD_ASSUME, SCEN_RULE, gen_guards
 
 PROP = {
     "suites": ["scn-pretend", "scn-mixed", "bin", "binovl"],
-    "lean_modules": ["Lc.Props.C15"],
+    "lean_modules": ["Lc.Props.C15", "Lc.Props.C15Facts"],
+    "generate": [gen_guards],
     "leanchecker": True,
-    "trusted_base": WORLD_TB,
+    "trusted_base": WORLD_TB + ["tools/extract (go/ast): regenerates Lc/Generated/Guards.lean (mutator call sites and their WriteOK guards, command functions and getArgs, dropped errors) from the source on every run; default deny for what it does not understand"],
     "assumptions": WORLD_ASSUME + [
         "the in-process runs install the pretender exactly as getArgs does (fs.WriteOK = fs.MakePretender(pretend, ...)); argument parsing and pretender installation of cmd/layercake are covered by the binary-level suites bin/binovl: the real binary with -p/--p/-p=true at arbitrary positions inside a private mount namespace with real mounts (base layers: full model comparison incl. the CLI model Lc/Model/Cli.lean; derived layers with a real overlay: oracle only)",
     ],
